@@ -174,8 +174,11 @@ func DataURI(dataURI []byte) ([]byte, []byte, error) {
 					mediatype = append(mediatype, TrimWhitespace(dataURI[i:j])...)
 				}
 				if c == ',' {
-					if len(mediatype) == 0 || mediatype[0] == ';' {
-						mediatype = textMimeBytes
+					if len(mediatype) == 0 {
+						mediatype = append(mediatype, textMimeBytes...) // a copy, the caller may change it
+					} else if mediatype[0] == ';' {
+						// only parameters: text/plain is the default type (RFC 2397)
+						mediatype = append(append(make([]byte, 0, len(textMimeBytes)+len(mediatype)), textMimeBytes...), mediatype...)
 					}
 					data := dataURI[j+1:]
 					if inBase64 {
